@@ -213,6 +213,18 @@ theorem C26_rejected_rename (s : State) (c : Cred) (o d bad : Str) (h : validDb 
     subst this
     simp [step, hd, applyAction]
 
+/-- every name that reaches the file layer was validated: whatever the request and the state, an
+    add / copy / rename ACTION is only ever issued with a valid (new) database name -/
+theorem C26_only_valid_names_reach_the_pool (s : State) (r : Req) (a : Action)
+    (h : Server.decide s r = .ok a) :
+    (∀ oid o n k, a = .dbAdd oid o n k → validDb n = true) ∧
+    (∀ id oid o n, a = .dbCopy id oid o n → validDb n = true) ∧
+    (∀ id oid o n, a = .dbRename id oid o n → validDb n = true) := by
+  refine ⟨?_, ?_, ?_⟩ <;> intro _ _ _ _ ha <;> subst ha <;> cases r <;>
+    simp only [Server.decide, bind, Except.bind, findDbOr404, userOr404, decideExec, decideExecMut,
+      validUserName, pure, Except.pure] at h <;>
+    (repeat' split at h) <;> simp_all
+
 end Rejected
 
 /-! ### the defects of the unrepaired code (no validation: `validDbLegacy = true`) -/
